@@ -35,16 +35,17 @@ Module RcbC.
   Lemma rcb_collect : forall fuel sched D k tol pts ws p0,
     (0 < D)%nat -> length ws = length p0 -> length pts = length p0 ->
     Forall (fun pt => length pt = D) pts ->
-    coords_ok pts -> box_ok32 D pts ws = true ->
+    Coupe.Proofs.RcbBox.coords_in_f32_range pts ->
     Z.of_nat fuel > 2 ^ 33 ->
     exists p, C03.rcb_impl fuel sched D k tol pts ws p0 = Ok p
               /\ length p = length pts /\ Forall (fun i => (i < 2 ^ N.of_nat k)%N) p.
   Proof.
-    intros fuel sched D k tol pts ws p0 HD Hlw Hlp Hshape Hok Hbox Hf.
-    destruct (C03.C03_rcb_total fuel sched D k tol pts ws p0 HD Hlw Hlp Hshape Hok Hbox Hf) as [p Hp].
+    intros fuel sched D k tol pts ws p0 HD Hlw Hlp Hshape Hr Hf.
+    pose proof (Coupe.Proofs.RcbTotalInst.range_coords_ok pts Hr) as Hok.
+    destruct (C03.C03_rcb_total fuel sched D k tol pts ws p0 HD Hlw Hlp Hshape Hr Hf) as [p Hp].
     exists p. split; [exact Hp|].
-    destruct (C03.C03_one_part_per_point fuel sched D k tol pts ws p0 p Hok Hp) as [Hl Hr]. split; [exact Hl|].
-    destruct pts as [|pt0 pts']; [|apply Hr; discriminate].
+    destruct (C03.C03_one_part_per_point fuel sched D k tol pts ws p0 p Hok Hp) as [Hl Hrg]. split; [exact Hl|].
+    destruct pts as [|pt0 pts']; [|apply Hrg; discriminate].
     destruct p; [constructor|discriminate].
   Qed.
 End RcbC.
